@@ -12,7 +12,7 @@ Z3_OLD = '/usr/bin/z3'
 CVC5_BIN = '/usr/bin/cvc5'
 
 RLIMIT = int(os.environ.get('PYVC_RLIMIT', '60000000'))   # deterministic z3 resource limit (~60 s of work)
-WALL = int(os.environ.get('PYVC_WALL', '120'))              # safety net only; maps to unknown
+WALL = int(os.environ.get('PYVC_WALL', '600'))              # safety net only; maps to unknown
 
 
 def smt2_text(hyps, goal, negate=True):
@@ -101,17 +101,21 @@ def discharge(obligations, jobs=16, both=False, log=None):
 	for ob in obligations:
 		r = results.setdefault(ob.name, Result(ob.name))
 		r.instances += 1
-		if ob.meta.get('expect') == 'sat':
-			r.expect = 'sat'
+		if ob.meta.get('expect') in ('sat', 'sat-any'):
+			r.expect = ob.meta['expect']
 		if ob.goal is True:
 			continue
 		tasks.append(ob)
 
 	# the z3 Python API is not thread safe: build all query texts first, in this thread
-	texts = {id(ob): smt2_text(ob.hyps, ob.goal, negate=ob.meta.get('expect') != 'sat') for ob in tasks}
+	texts = {id(ob): smt2_text(ob.hyps, ob.goal, negate=ob.meta.get('expect') not in ('sat', 'sat-any')) for ob in tasks}
 
 	def work(ob):
-		expect_sat = ob.meta.get('expect') == 'sat'
+		expect_sat = ob.meta.get('expect') in ('sat', 'sat-any')
+		if expect_sat:
+			# vacuity guards only need "not refuted": one cheap attempt
+			v, secs = run_z3(texts[id(ob)], rlimit=RLIMIT // 20, wall=20)
+			return ob, (v if v in ('sat', 'unsat') else 'unknown'), 'z3-5.1', secs, None
 		text = texts[id(ob)]
 		v, backend, secs = portfolio(text, expect_sat)
 		second = None
@@ -130,7 +134,18 @@ def discharge(obligations, jobs=16, both=False, log=None):
 			r.backend.add(backend)
 			if second in ('sat', 'unsat'):
 				r.backend.add('cvc5-1.0.3')
-			expect_sat = ob.meta.get('expect') == 'sat'
+			expect_sat = ob.meta.get('expect') in ('sat', 'sat-any')
+			if expect_sat and ob.meta.get('expect') == 'sat-any':
+				# at least one instance must be satisfiable (or at least not refuted)
+				r.n_unsat = getattr(r, 'n_unsat', 0) + (1 if v == 'unsat' else 0)
+				if v != 'unsat':
+					r.verdict = 'discharged'
+					r.detail = f'reachable: {v}'
+				elif r.verdict is None and r.n_unsat == r.instances:
+					r.verdict = 'failed'
+					r.failed_instance = ob
+					r.detail = 'vacuous: no path is satisfiable'
+				continue
 			if expect_sat:
 				if v == 'unsat':
 					r.verdict = 'failed'
